@@ -127,6 +127,17 @@ CHECKS = {
              'streams split across reads are validated by TLC.',
         design_ref='DESIGN.md section 3 (C07)',
         note='Trusts: TLC; HOME is pointed at a scratch keyring; exceptions escaping dataReceived are projected as close.'),
+    'C12': dict(
+        technique='TLA+ spec Router.tla (Matches from the DBus specification, generator over rules x message universe, '
+                  'add/remove/route history machine); TLC-computed match sets compared with the real routers',
+        text='For each of 1440 rules TLC computes the exact subset of a 724-message universe it matches (near misses on every '
+             'key, sibling paths sharing a textual prefix, missing / non-string arguments, argument paths with and without '
+             'trailing slash, all message types) and the constraints its rule text must express; the real MessageRouter, the '
+             'client addMatch path (rule text parsed and compared) and the bus rule parser + router must reproduce them. '
+             'An add/remove/route history machine (raising callbacks, id freshness) is explored exhaustively and replayed on a '
+             'real client connection; random rules over a larger value space and proxy subscriptions are judged by TLC.',
+        design_ref='DESIGN.md section 3 (C12)',
+        note='Trusts: TLC; sender= and arg0namespace are outside the property; only argument index 0 is modelled.'),
 }
 
 NOT_YET = 'check not built yet (build in progress; see DESIGN.md section 6)'
